@@ -41,6 +41,19 @@ Record rcase := RC {
     (* outbound queue: (target, (kind 0=DeltaBatch 1=TargetedDelta, src, tgt, (tag, origin) list, epoch)),
        the targeted messages of one call sorted by target *)
 
+(* large queue_deltas batches, described by a rule instead of being listed: update j of a
+   call (0 <= j < size) is on key [keys[j mod |keys|]], has payload tag [base + j] (base =
+   number of updates of the earlier calls) and origin [origins[j mod |origins|]].  The
+   outbound queue after the calls is compared through a digest per message. *)
+Record bigcase := BG {
+  bg_make : rmake;
+  bg_keys : list string;
+  bg_origins : list N;
+  bg_sizes : list N;                        (* one queue_deltas call each, advance_epoch before *)
+  bg_queue : list (option N * (N * (N * (N * (N * (N * (N * N))))))) }.
+    (* (target, (kind, (src, (tgt, (epoch, (number of deltas, (sum of tags, sum of (position+1)*tag))))))),
+       the targeted messages of one call sorted by target *)
+
 Record case := K {
   k_vn : N; k_rf : N;
   k_init : list N;                         (* HashRing::new(init, vn, rf) *)
@@ -48,7 +61,8 @@ Record case := K {
   k_keys : list (string * N);              (* key (hex of the UTF-8 bytes), custom rf *)
   k_stages : list stage;                   (* after new and after every op *)
   k_universe : list N;                     (* every node id mentioned *)
-  k_routers : list rcase }.                (* routers over the final ring *)
+  k_routers : list rcase;                  (* routers over the final ring *)
+  k_big : list bigcase }.                  (* large batches through queue_deltas, final ring *)
 
 (* ---- comparison ---------------------------------------------------------------------- *)
 Fixpoint list_eqb {A} (eqb : A -> A -> bool) (a b : list A) : bool :=
@@ -125,6 +139,39 @@ Definition check_router (R : ring) (c : rcase) : bool :=
   tbl_eqb (canon_table (route_deltas fast_kpos r os0 (rc_deltas c))) (rc_table c) &&
   list_eqb msg_eqb (map canon_msg (run_queue r (rc_batches c))) (rc_queue c).
 
+Definition gen_batch (keys : list (list N)) (origins : list N) (base n : N) : list (list N * (N * N)) :=
+  let nk := N.of_nat (List.length keys) in
+  let no := N.of_nat (List.length origins) in
+  map (fun j => (nth (N.to_nat (j mod nk)) keys [], (base + j, nth (N.to_nat (j mod no)) origins 0)))
+      (nseq n).
+
+Definition digest_msg (m : option N * gmsg) : option N * (N * (N * (N * (N * (N * (N * N)))))) :=
+  let dg := fun (ds : list (list N * (N * N))) =>
+    let '(cnt, (sm, ws)) :=
+      fold_left (fun a d => let '(c, (s1, s2)) := a in (c + 1, (s1 + d_tag d, s2 + (c + 1) * d_tag d)))
+                ds (0, (0, 0)) in
+    (cnt, (sm, ws)) in
+  match snd m with
+  | DeltaBatch src ds ep => (fst m, (0, (src, (0, (ep, dg ds)))))
+  | TargetedDelta src tgt ds ep => (fst m, (1, (src, (tgt, (ep, dg ds)))))
+  end.
+Definition dmsg_eqb (a b : option N * (N * (N * (N * (N * (N * (N * N))))))) : bool :=
+  let '(ta, (ka, (sa, (ga, (ea, (ca, (ma, wa))))))) := a in
+  let '(tb, (kb, (sb, (gb, (eb, (cb, (mb, wb))))))) := b in
+  optN_eqb ta tb && (ka =? kb) && (sa =? sb) && (ga =? gb) && (ea =? eb) && (ca =? cb) && (ma =? mb) && (wa =? wb).
+
+Definition run_big (r : router) (keys : list (list N)) (origins : list N) (sizes : list N) : list (option N * gmsg) :=
+  g_queue (snd (fold_left (fun bg n =>
+                  (fst bg + n,
+                   queue_deltas fast_kpos (@sort_key _) os0 (advance_epoch (snd bg))
+                                (gen_batch keys origins (fst bg) n)))
+                sizes (0, GState (gr_me r) 0 [] (Some r)))).
+
+Definition check_big (R : ring) (c : bigcase) : bool :=
+  let r := mk_router R (bg_make c) in
+  list_eqb dmsg_eqb (map digest_msg (run_big r (map unhex (bg_keys c)) (bg_origins c) (bg_sizes c)))
+           (bg_queue c).
+
 (* positions of all virtual nodes of every node mentioned are pairwise distinct (the
    hypothesis of the placement theorems), checked on the sorted ring of the universe *)
 Fixpoint adjacent_distinct (l : list (N * (N * N))) : bool :=
@@ -139,6 +186,7 @@ Definition check (c : case) : bool :=
   let Rf := fold_left Sapply (k_ops c) R0 in
   check_stages R0 kps (k_ops c) (k_stages c) &&
   forallb (check_router Rf) (k_routers c) &&
+  forallb (check_big Rf) (k_big c) &&
   adjacent_distinct (r_ring (Snew (k_universe c) (k_vn c) 0)).
 
 Definition mismatches := mismatches_with check.
